@@ -1,6 +1,6 @@
 (* C04/Properties.v — the property theorems, nothing else.  Each is closed by [exact lemma] and followed
    by Print Assumptions (captured into the evidence by the check driver). *)
-From Verif Require Import Common.Base C04.Model C04.Proofs C04.Proofs2 C04.Proofs3 C04.Proofs4 C04.Proofs5.
+From Verif Require Import Common.Base C04.Model C04.Proofs C04.Proofs2 C04.Proofs3 C04.Proofs4 C04.Proofs5 C04.Proofs6 C04.Proofs7 C04.Harness.
 From Coq Require Import Permutation.
 Local Open Scope Z_scope.
 
@@ -98,6 +98,44 @@ Proof. exact no_limit_no_split_l. Qed.
 Print Assumptions no_limit_no_split.
 
 (* ================================================================================================== *)
+(* 3b. bytes sizer (and every sizer / weight): exact memo, size bound — logs, traces, profiles        *)
+(* ================================================================================================== *)
+(* [memo_ok w sz r]: the memo of r is unknown (-1) or equals its recomputed size.  After ANY MergeSplit, with any
+   sizer, weight function and max_size, every returned request satisfies it again — no other hypothesis: the
+   removedSize arithmetic ("delta between the delta sizes") is exact.  (For metrics it is false: C04-CACHEDRIFT.) *)
+Theorem cached_size_exact_any_sizer : forall w sz max a b out,
+  memo_ok w sz a -> memo_ok_opt w sz b -> merge_split w sz max a b = Some out -> Forall (memo_ok w sz) out.
+Proof. exact cached_size_exact_all_l. Qed.
+Print Assumptions cached_size_exact_any_sizer.
+
+Theorem cached_size_exact_bytes : forall w max a b out,
+  memo_ok w Bytes a -> memo_ok_opt w Bytes b -> merge_split w Bytes max a b = Some out -> Forall (memo_ok w Bytes) out.
+Proof. exact (fun w => cached_size_exact_all_l w Bytes). Qed.
+Print Assumptions cached_size_exact_bytes.
+
+(* Every request that split() cuts off measures at most max_size in the active unit (TRUE recomputed size: the
+   reservation capacity - (DeltaSize capacity - capacity) - header is sound against the nested length prefixes);
+   the last request is within max_size by its (exact) memo, or it is the remainder of a split that stopped because
+   an extraction removed nothing ([no_progress]: C04-OVERSIZED-REMAINDER).  Hypothesis: non-negative measured sizes
+   (and weight >= 1 for the items sizer).  With w_samples / Items this is the bound for profiles: at most max_size
+   samples per batch. *)
+Theorem batch_size_bound_any_sizer : forall w sz max a b out,
+  wf_p w sz (rp a) -> wf_opt w sz b -> 1 <= max ->
+  merge_split w sz max a b = Some out ->
+  exists ds last, out = ds ++ [last] /\ Forall (fun q => payload_size w sz (rp q) <= max) ds /\
+                  (rcached last <= max \/ no_progress w sz max last).
+Proof. exact batch_size_bound_all_l. Qed.
+Print Assumptions batch_size_bound_any_sizer.
+
+Theorem batch_size_bound_bytes : forall w max a b out,
+  wf_p w Bytes (rp a) -> wf_opt w Bytes b -> 1 <= max ->
+  merge_split w Bytes max a b = Some out ->
+  exists ds last, out = ds ++ [last] /\ Forall (fun q => payload_size w Bytes (rp q) <= max) ds /\
+                  (rcached last <= max \/ no_progress w Bytes max last).
+Proof. exact (fun w => batch_size_bound_all_l w Bytes). Qed.
+Print Assumptions batch_size_bound_bytes.
+
+(* ================================================================================================== *)
 (* 4. the size bound: what is false of the code                                                       *)
 (* ================================================================================================== *)
 (* C04-OVERSIZED-REMAINDER: when the leftmost unit does not fit, split() returns the whole remainder: a request
@@ -156,7 +194,24 @@ Section Batcher.
     0 < fcount i (b_fired (fst (brun msplit sizeof min_size es))) ->
     ~ refers (fst (brun msplit sizeof min_size es)) i.
   Proof. exact (done_only_after_batches_l msplit sizeof min_size). Qed.
+  (* the error a callback reports is EXACTLY the specification's verdict [snd (erun es) i] (Model.erun): request
+     i's own MergeSplit failed, or the export of a batch whose done list was ATTACHED to i (it contains i's done or a
+     refCountDone wrapping it) returned an error — both directions, every history *)
+  Theorem done_error_iff : forall es i e,
+    In (i, e) (b_fired (fst (brun msplit sizeof min_size es))) -> e = snd (erun msplit sizeof min_size es) i.
+  Proof. exact (done_error_iff_l msplit sizeof min_size). Qed.
 End Batcher.
+Print Assumptions done_error_iff.
+
+(* "attached to" is not "holds items of": with requests that are lists of ids and a MergeSplit that leaves slack,
+   request 2 reports an error although every batch holding one of its ids succeeded (C04-DONE-FOREIGN-ERROR) *)
+Theorem done_error_only_items_refuted :
+  let '(batches, fired) := model_bat 2 3 3 foreign_evs in
+  In (2, 1) fired /\
+  forall b ids, nth_error batches b = Some ids -> (exists x, In x ids /\ In x [3;4;5;6;7]) ->
+                ~ In (2, [Z.of_nat b], 1) foreign_evs.
+Proof. exact done_error_only_items_refuted_l. Qed.
+Print Assumptions done_error_only_items_refuted.
 Print Assumptions done_at_most_once.
 Print Assumptions done_exactly_once.
 Print Assumptions done_only_after_batches.
